@@ -18,6 +18,7 @@ package main
 
 import (
 	"bufio"
+	"encoding/hex"
 	"encoding/json"
 	"fmt"
 	"os"
@@ -36,6 +37,56 @@ import (
 var envVars = []string{"UNSAFE_ALLOW_SIGN_INPROC", "UNSAFE_ALLOW_SIGN_IPC", "UNSAFE_RPC_SIGNING_HTTP", "UNSAFE_RPC_SIGNING_WS", "UNSAFE_RPC_SIGNING"}
 var envShort = []string{"inproc", "ipc", "http", "ws", "all"}
 var flagVar = []string{"allow_sign_inProc", "allow_sign_ipc", "allow_sign_http", "allow_sign_ws", "allow_all_rpc_signing"}
+
+// the per-variable value lattice (nil = unset). Which of them opt in is NOT decided here: the Lean driver judges every line with the
+// documented reading (`envOn`); the split below only steers which sweeps are planned for a row.
+var latticeOff = []*string{nil, sp(""), sp("0"), sp("false"), sp("no"), sp("off")}
+var latticeOn = []*string{sp("1"), sp("true"), sp("yes"), sp(" 1"), sp("2")}
+
+func sp(s string) *string { return &s }
+
+type rawEnv [5]*string
+
+// token: five comma-separated values in the order of envVars: `u` = unset, `s<hex>` = present with that value.
+func (r rawEnv) token() string {
+	var parts []string
+	for _, v := range r {
+		if v == nil {
+			parts = append(parts, "u")
+		} else {
+			parts = append(parts, "s"+hex.EncodeToString([]byte(*v)))
+		}
+	}
+	return strings.Join(parts, ",")
+}
+
+func parseRawEnv(tok string) (rawEnv, error) {
+	var r rawEnv
+	parts := strings.Split(tok, ",")
+	if len(parts) != 5 {
+		return r, fmt.Errorf("bad env token %q", tok)
+	}
+	for i, p := range parts {
+		switch {
+		case p == "u":
+		case strings.HasPrefix(p, "s"):
+			b, err := hex.DecodeString(p[1:])
+			if err != nil {
+				return r, err
+			}
+			r[i] = sp(string(b))
+		default:
+			return r, fmt.Errorf("bad env token %q", tok)
+		}
+	}
+	return r, nil
+}
+
+type plan struct {
+	bits string // intended flags of the row (planning only)
+	raw  rawEnv
+	sc   []Scenario
+}
 
 var knownNamespaces = []string{"admin", "aqua", "btc", "clique", "debug", "eth", "miner", "net", "personal", "rpc", "testing", "txpool", "web3"}
 
@@ -77,7 +128,8 @@ func parseCfg(cfg string, s *Scenario) {
 var seenX = map[string]bool{}
 
 type childResult struct {
-	bits    string
+	bits    string // intended flags (planning label)
+	env     string // raw environment token used in the case lines
 	spec    ChildSpec
 	recs    []Rec
 	crashes []string
@@ -105,26 +157,27 @@ func main() {
 	wsall := func(sweep string) Scenario {
 		return Scenario{Kind: "pow", HTTP: []string{"personal", "aqua"}, WSAll: true, Sweep: sweep}
 	}
-	var plans []struct {
-		bits string
-		sc   []Scenario
-	}
+	var plans []plan
 	if run.Replay != "" {
-		bits, sc, err := replayPlan(run.Replay)
+		raw, sc, err := replayPlan(run.Replay)
 		if err != nil {
 			run.Violate("replay-unreadable", "replay", run.Replay, err.Error())
 			return
 		}
-		plans = append(plans, struct {
-			bits string
-			sc   []Scenario
-		}{bits, sc})
+		plans = append(plans, plan{"replay", raw, sc})
 	} else {
+		pick := func(l []*string) *string { return l[rng.Intn(len(l))] }
 		add := func(bits string, sc ...Scenario) {
-			plans = append(plans, struct {
-				bits string
-				sc   []Scenario
-			}{bits, sc})
+			// the spelling of every variable varies with the seed inside its class (EnvBool accepts several, "" included)
+			var raw rawEnv
+			for k := 0; k < 5; k++ {
+				if bits[k] == '1' {
+					raw[k] = pick(latticeOn)
+				} else {
+					raw[k] = pick(latticeOff)
+				}
+			}
+			plans = append(plans, plan{bits, raw, sc})
 		}
 		for e := 0; e < 32; e++ {
 			bits := ""
@@ -172,6 +225,33 @@ func main() {
 				add(bits, Scenario{Kind: "pow", HTTP: all, WS: all, Sweep: "none"})
 			}
 		}
+		// the value lattice: everything unset except one variable, at every value. Every row yields an F case (what package rpc read);
+		// the rows with an empty or an unusual value also get the exposed sets (thorough: all of them).
+		expo := Scenario{Kind: "pow", HTTP: all, WS: all, Sweep: "none"}
+		for k := 0; k < 5; k++ {
+			for _, v := range append(append([]*string{}, latticeOff...), latticeOn...) {
+				var raw rawEnv
+				raw[k] = v
+				p := plan{"lattice", raw, nil}
+				if run.Thorough() || (v != nil && (*v == "" || *v == " 1" || *v == "2")) {
+					p.sc = []Scenario{expo}
+				}
+				plans = append(plans, p)
+			}
+		}
+		// a few mixed rows per run
+		both := append(append([]*string{}, latticeOff...), latticeOn...)
+		nmix := 3
+		if run.Thorough() {
+			nmix = 24
+		}
+		for i := 0; i < nmix; i++ {
+			var raw rawEnv
+			for k := 0; k < 5; k++ {
+				raw[k] = pick(both)
+			}
+			plans = append(plans, plan{"mixed", raw, []Scenario{{Kind: "pow", HTTP: all, WS: all, Sweep: "accounts-lite"}}})
+		}
 	}
 
 	self, _ := os.Executable()
@@ -186,22 +266,19 @@ func main() {
 	var wg sync.WaitGroup
 	results := make([]*childResult, len(plans))
 	for i, p := range plans {
-		// the textual value used for "set"/"unset" varies with the seed (EnvBool accepts several spellings)
 		envv := map[string]string{}
 		for k := 0; k < 5; k++ {
-			if p.bits[k] == '1' {
-				envv[envVars[k]] = []string{"1", "true", "on", "yes"}[rng.Intn(4)]
-			} else if v := []string{"", "", "0", "false", "off"}[rng.Intn(5)]; v != "" {
-				envv[envVars[k]] = v
+			if p.raw[k] != nil {
+				envv[envVars[k]] = *p.raw[k]
 			}
 		}
 		wg.Add(1)
-		go func(i int, bits string, sc []Scenario, envv map[string]string, seed uint64) {
+		go func(i int, p plan, envv map[string]string, seed uint64) {
 			defer wg.Done()
 			sem <- struct{}{}
 			defer func() { <-sem }()
-			results[i] = runChild(self, run.OutDir, bits, sc, envv, seed)
-		}(i, p.bits, p.sc, envv, run.Seed*1000+uint64(i))
+			results[i] = runChild(self, run.OutDir, i, p, envv, seed)
+		}(i, p, envv, run.Seed*1000+uint64(i))
 	}
 	wg.Wait()
 
@@ -238,9 +315,10 @@ func allNamespaces() []string {
 	return out
 }
 
-func runChild(self, outDir, bits string, sc []Scenario, envv map[string]string, seed uint64) *childResult {
-	res := &childResult{bits: bits}
-	dir := filepath.Join(outDir, fmt.Sprintf("ch-%s-%d", bits, seed%1000))
+func runChild(self, outDir string, idx int, p plan, envv map[string]string, seed uint64) *childResult {
+	bits, sc := p.bits, p.sc
+	res := &childResult{bits: bits, env: p.raw.token()}
+	dir := filepath.Join(outDir, fmt.Sprintf("ch-%03d-%s", idx, bits))
 	os.RemoveAll(dir)
 	os.MkdirAll(dir, 0o700)
 	spec := ChildSpec{ID: bits, Seed: seed, Dir: dir, Scenarios: sc}
@@ -354,13 +432,13 @@ func digest(run *hx.Run, r *childResult) {
 		return
 	}
 	if r.err != "" {
-		run.Violate("harness-child-failed", "child-failed", map[string]string{"env": r.bits}, r.err)
+		run.Violate("harness-child-failed", "child-failed", map[string]string{"env": r.env}, r.err)
 	}
 	for _, k := range r.crashes {
 		run.Count("call-killed-child")
 		if notes, ok := run.Notes["callsThatKilledTheChild"].([]string); !ok || len(notes) < 20 {
 			notes, _ := run.Notes["callsThatKilledTheChild"].([]string)
-			run.Notes["callsThatKilledTheChild"] = append(notes, r.bits+" "+k)
+			run.Notes["callsThatKilledTheChild"] = append(notes, r.env+" "+k)
 		}
 	}
 	hook := false
@@ -401,10 +479,14 @@ func digest(run *hx.Run, r *childResult) {
 			if len(rec.Flags) != len(flagVar) {
 				parts = append(parts, fmt.Sprintf("nflags=%d", len(rec.Flags)))
 			}
-			run.Case("F "+r.bits, strings.Join(parts, " "))
+			if id := "F " + r.env; !seenX[id] {
+				seenX[id] = true
+				run.Case(id, strings.Join(parts, " "))
+				run.Count("env-rows")
+			}
 			run.Notes["hookPresent"] = hook
 		case "exposed":
-			id := fmt.Sprintf("X %s %s %s %s", sc.Kind, r.bits, cfg, rec.Tr)
+			id := fmt.Sprintf("X %s %s %s %s", sc.Kind, r.env, cfg, rec.Tr)
 			if seenX[id] {
 				continue
 			}
@@ -417,7 +499,7 @@ func digest(run *hx.Run, r *childResult) {
 			run.Count("exposure-sets")
 			run.Count(fmt.Sprintf("exposed-methods:%s:%s", sc.Kind, rec.Tr))
 		case "modules":
-			id := fmt.Sprintf("M %s %s %s %s", sc.Kind, r.bits, cfg, rec.Tr)
+			id := fmt.Sprintf("M %s %s %s %s", sc.Kind, r.env, cfg, rec.Tr)
 			if seenX[id] {
 				continue
 			}
@@ -430,7 +512,7 @@ func digest(run *hx.Run, r *childResult) {
 		case "note":
 			run.Count("note")
 			if rec.Msg != "" && (strings.HasPrefix(rec.Msg, "scenario failed") || strings.Contains(rec.Msg, "not started") || strings.Contains(rec.Msg, "rpc_modules failed")) {
-				run.Violate("harness-scenario-failed", "scenario-failed", map[string]interface{}{"env": r.bits, "scenario": sc}, rec.Tr+" "+rec.Msg)
+				run.Violate("harness-scenario-failed", "scenario-failed", map[string]interface{}{"env": r.env, "scenario": sc}, rec.Tr+" "+rec.Msg)
 			}
 		case "call":
 			sep := "="
@@ -478,7 +560,7 @@ func digest(run *hx.Run, r *childResult) {
 				ev = "-"
 			}
 			run.Current(m)
-			run.Case(fmt.Sprintf("S %s %s %s %s %s %s", sc.Kind, r.bits, cfg, rec.Tr, m, rec.Variant),
+			run.Case(fmt.Sprintf("S %s %s %s %s %s %s", sc.Kind, r.env, cfg, rec.Tr, m, rec.Variant),
 				fmt.Sprintf("%s %s %s %d", obs, rec.Outcome, ev, rec.Delta))
 			run.Count("calls")
 			run.Count("outcome:" + rec.Outcome)
@@ -495,7 +577,7 @@ func digest(run *hx.Run, r *childResult) {
 			// a block seal is produced asynchronously (the miner signs, the block is inserted later): for it only the cumulative counter is
 			// meaningful; every other kind of evidence is part of this call's own result
 			if hook && rec.Evidence != "" && ((onlySealed && rec.Count == 0) || (!onlySealed && rec.Delta == 0)) {
-				run.Violate("hook-miss", "hook-miss "+m, map[string]interface{}{"env": r.bits, "scenario": sc, "transport": rec.Tr, "method": m, "variant": rec.Variant, "args": rec.Args},
+				run.Violate("hook-miss", "hook-miss "+m, map[string]interface{}{"env": r.env, "scenario": sc, "transport": rec.Tr, "method": m, "variant": rec.Variant, "args": rec.Args},
 					"a keystore signature was observed ("+rec.Evidence+") but the verif signing counter did not move: a signing path bypasses the hooked entry points")
 			}
 		}
@@ -504,7 +586,7 @@ func digest(run *hx.Run, r *childResult) {
 	if r.bits == "11111" {
 		for _, tr := range transports {
 			if calledOn[tr] && !signedOn[tr] {
-				run.Violate("harness-blind", "harness-blind "+tr, map[string]string{"env": r.bits, "transport": tr},
+				run.Violate("harness-blind", "harness-blind "+tr, map[string]string{"env": r.env, "transport": tr},
 					"all opt-in variables set but no signature was observed on "+tr+": the harness cannot observe signing (or opting in does not enable it)")
 			}
 		}
@@ -512,27 +594,32 @@ func digest(run *hx.Run, r *childResult) {
 }
 
 // replayPlan rebuilds a one-call plan from a replay file whose input is an S/X case line.
-func replayPlan(path string) (string, []Scenario, error) {
+func replayPlan(path string) (rawEnv, []Scenario, error) {
 	b, err := os.ReadFile(path)
 	if err != nil {
-		return "", nil, err
+		return rawEnv{}, nil, err
 	}
 	var rp struct {
 		Input interface{} `json:"input"`
 		Sig   string      `json:"sig"`
 	}
 	if err := json.Unmarshal(b, &rp); err != nil {
-		return "", nil, err
+		return rawEnv{}, nil, err
 	}
 	line, _ := rp.Input.(string)
 	if line == "" {
 		line = rp.Sig
 	}
 	f := strings.Fields(line)
+	if len(f) == 2 && f[0] == "F" {
+		raw, err := parseRawEnv(f[1])
+		return raw, nil, err
+	}
 	if len(f) >= 5 && (f[0] == "X" || f[0] == "M") {
 		sc := Scenario{Kind: f[1], Sweep: "none"}
 		parseCfg(f[3], &sc)
-		return f[2], []Scenario{sc}, nil
+		raw, err := parseRawEnv(f[2])
+		return raw, []Scenario{sc}, err
 	}
 	if len(f) >= 7 && f[0] == "S" {
 		sc := Scenario{Kind: f[1], Sweep: "only"}
@@ -545,10 +632,11 @@ func replayPlan(path string) (string, []Scenario, error) {
 		}
 		j := strings.Index(nsname, ".")
 		if j < 0 {
-			return "", nil, fmt.Errorf("bad method in %q", line)
+			return rawEnv{}, nil, fmt.Errorf("bad method in %q", line)
 		}
 		sc.Only = &OnlyCall{Transport: f[4], Ns: nsname[:j], Name: nsname[j+1:], Variant: f[6]}
-		return f[2], []Scenario{sc}, nil
+		raw, err := parseRawEnv(f[2])
+		return raw, []Scenario{sc}, err
 	}
-	return "", nil, fmt.Errorf("replay input is not an S/X/M case line: %q", line)
+	return rawEnv{}, nil, fmt.Errorf("replay input is not an S/X/M case line: %q", line)
 }
